@@ -179,6 +179,71 @@ func checkC02(p *Program, r *Reporter) {
 	timelineWindow(p, r)
 	// (d) the two delivery modes serve the same kinds of segments
 	deliverySiblings(p, r)
+	// (e) "no segment yet" sentinels
+	sentinelGuards(p, r)
+}
+
+// sentinelGuards: the timeline generator marks "no segment available yet" by storing -1 into
+// segEntries.startNr and lastSegInfo.nr. Every comparison of such a field with a constant must separate
+// the sentinel (-1) from the first valid value (0); a guard that treats 0 like the sentinel drops the
+// startNumber / publishTime of the very first segment.
+func sentinelGuards(p *Program, r *Reporter) {
+	r.Rule("E5-SENTINELGUARD", "tests of the 'no segment yet' sentinel separate -1 from the valid number 0", 2)
+	fields := map[string]bool{"app.segEntries.startNr": true, "app.lastSegInfo.nr": true}
+	sentinelStored := map[string]bool{}
+	for _, fn := range livesimFuncs(p) {
+		for _, b := range fn.Blocks {
+			for _, in := range b.Instrs {
+				if st, ok := in.(*ssa.Store); ok {
+					if f, ok := fieldOfAddr(st.Addr); ok && fields[f] {
+						if k, ok := constInt(st.Val); ok && k == -1 {
+							sentinelStored[f] = true
+						}
+					}
+				}
+			}
+		}
+	}
+	holds := func(op token.Token, v, k int64) bool {
+		switch op {
+		case token.LSS:
+			return v < k
+		case token.LEQ:
+			return v <= k
+		case token.GTR:
+			return v > k
+		case token.GEQ:
+			return v >= k
+		case token.EQL:
+			return v == k
+		case token.NEQ:
+			return v != k
+		}
+		return false
+	}
+	for _, fn := range livesimFuncs(p) {
+		for _, b := range fn.Blocks {
+			for _, in := range b.Instrs {
+				bo, ok := in.(*ssa.BinOp)
+				if !ok {
+					continue
+				}
+				switch bo.Op {
+				case token.LSS, token.LEQ, token.GTR, token.GEQ, token.EQL, token.NEQ:
+				default:
+					continue
+				}
+				f, isLoad := loadedField(bo.X)
+				k, isConst := constInt(bo.Y)
+				if !isLoad || !isConst || !fields[f] || !sentinelStored[f] {
+					continue
+				}
+				sep := holds(bo.Op, -1, k) != holds(bo.Op, 0, k)
+				r.Decide(sep, "E5-SENTINELGUARD", shortFn(fn), "test:"+f, p.pos(bo.Pos()), "separates the sentinel -1 from the valid value 0",
+					fmt.Sprintf("the test %s treats the valid number 0 like the 'no segment yet' sentinel -1 (or the sentinel like a valid number): the first segment's startNumber/publishTime is lost", bo.String()), nil)
+			}
+		}
+	}
 }
 
 // deliverySiblings: whole-segment and chunked delivery are siblings behind one handler branch.
